@@ -131,6 +131,9 @@ package stringclassifier
 //@   props C13
 //@
 //@ func (*matcher).findMatches$1
+//@   // one Add unit of wg is handed to this goroutine; its Done gives it back
+//@   holds wgtok(&wg) 1
+//@   requires wgtok(&wg) == 1
 //@   ghostparam base int
 //@   requires wfMatcher(m) && known != nil && okGroup(mr, len(m.unknown.Tokens)) && held(&m.mu) == 0 && base <= ref(m) && base <= ref(m.queue)
 //@   ensures held(&m.mu) == 0
@@ -139,6 +142,7 @@ package stringclassifier
 //@   props C13 C14 C17
 //@
 //@ func (*matcher).findMatches
+//@   loop 3 invariant wgtok(&wg) == 0 && wgst(&wg) == 1
 //@   ghostparam base int
 //@   requires wfMatcher(m) && okKnown(known) && known.set != nil && held(&m.mu) == 0 && base <= ref(m) && base <= ref(m.queue)
 //@   ensures held(&m.mu) == 0
@@ -155,6 +159,9 @@ package stringclassifier
 //@   props C13 C14 C17
 //
 //@ func (*Classifier).multipleMatch$1
+//@   // one Add unit of wg is handed to this goroutine; its Done gives it back
+//@   holds wgtok(&wg) 1
+//@   requires wgtok(&wg) == 1
 //@   ghostparam base int
 //@   requires wfMatcher(m) && c != nil && known != nil && inValues(c, known) && held(&c.muValues) == 0 && held(&m.mu) == 0 && base <= ref(m) && base <= ref(m.queue)
 //@   ensures held(&c.muValues) == 0 && held(&m.mu) == 0
@@ -175,6 +182,7 @@ package stringclassifier
 //@ ghostvar spawnedG int
 //@ spec collected(c *Classifier, kvals []*knownValue, k string) bool = exists i int :: 0 <= i && i < len(kvals) && kvals[i] == c.values[k]
 //@ func (*Classifier).multipleMatch
+//@   loop 2 invariant wgtok(&wg) == len(kvals) - (rangeindex + 1) && wgst(&wg) == 1
 //@   ensures [no-value-skipped] result != nil ==> spawnedG == collectedG
 //@   ghostset spawnedG = 0 atentry
 //@   ghostset collectedG = len(kvals) after RUnlock
@@ -239,6 +247,9 @@ package stringclassifier
 //@   props C13
 //@
 //@ func (*Classifier).nearestMatch$2
+//@   // one Add unit of wg is handed to this goroutine; its Done gives it back
+//@   holds wgtok(&wg) 1
+//@   requires wgtok(&wg) == 1
 //@   ghostparam base int
 //@   requires pq != nil && held(&mu) == 0 && lockNorm(&mu) == unknown && base <= ref(&mu) && base <= ref(pq)
 //@   ensures held(&mu) == 0
@@ -247,6 +258,7 @@ package stringclassifier
 //@   props C13 C14
 //@
 //@ func (*Classifier).nearestMatch
+//@   loop 2 invariant wgtok(&wg) == len(likely) - (rangeindex + 1) && wgst(&wg) == 1
 //@   requires wfC(c) && held(&c.muValues) == 0
 //@   ensures held(&c.muValues) == 0
 //@   ensures fresh(result) && queueInv(result, normOf(c, unknown)) && allNewer(result, old(nextref()) - 1) && arrNewer(result, old(nextref()) - 1)
